@@ -43,6 +43,12 @@ fn push_new(module: &mut Module, kind: &str, name: &str) {
     let e = String::new;
     match kind {
         "USER_RIGHTS" => module.user_rights.push(UserRights::new(n)),
+        "IF_DATA" => {
+            // an IF_DATA block built through the API: its content is the identifier that serves as its name here
+            let mut d = IfData::new();
+            d.ifdata_items = Some(GenericIfData::Block { incfile: None, line: 0, items: vec![GenericIfData::EnumItem(0, n)] });
+            module.if_data.push(d);
+        }
         "AXIS_PTS" => module.axis_pts.push(AxisPts::new(n, e(), 0, "NO_INPUT_QUANTITY".into(), "rl".into(), 0.0, "NO_COMPU_METHOD".into(), 1, 0.0, 0.0)),
         "BLOB" => module.blob.push(Blob::new(n, e(), 0, 0)),
         "CHARACTERISTIC" => module.characteristic.push(Characteristic::new(n, e(), CharacteristicType::Value, 0, "rl".into(), 0.0, "NO_COMPU_METHOD".into(), 0.0, 0.0)),
@@ -329,9 +335,16 @@ impl Scenario for C15Histories {
                     // mostly kinds that already exist in the file, sometimes any kind
                     let mut kind = if !kinds_here.is_empty() && cx.tape.chance(3, 4) { *cx.tape.pick(&kinds_here) } else { *cx.tape.pick(&KINDS) };
                     let mut name = fresh(cx);
-                    if cx.tape.chance(1, 12) {
-                        kind = "USER_RIGHTS";
-                        name = format!("user_{name}");
+                    match cx.tape.draw(16) {
+                        0 => {
+                            kind = "USER_RIGHTS";
+                            name = format!("user_{name}");
+                        }
+                        1 => {
+                            kind = "IF_DATA";
+                            name = format!("VENDOR_{name}");
+                        }
+                        _ => {}
                     }
                     let mi = cx.tape.draw(nmodules as u64) as usize;
                     desc = format!("push new {kind} {name} into module {mi}");
